@@ -13,5 +13,6 @@ func controlsC12() []Control {
 		{Name: "published hand blinds report the next level", Expect: "R1", Mutate: replaceIn("(*tableEngine).startGame", "Level:  blind.Level,", "Level:  blind.Level + 1,", 0)},
 		{Name: "blinds count as set without a dealer amount", Expect: "R5", Mutate: replaceIn("(TableBlindState).IsSet", "bs.Dealer != UnsetValue && ", "", 0)},
 		{Name: "blinds count as set at level zero", Expect: "R5", Mutate: replaceIn("(TableBlindState).IsSet", "bs.Level != 0", "bs.Level != -1", 0)},
+		{Name: "MTT creation with players overwrites the break pause", Expect: "R5", Mutate: replaceIn("(*tableEngine).CreateTable", "table.State.Status != TableStateStatus_TablePausing", "table.State.Status != TableStateStatus_TableBalancing", 0)},
 	}
 }
